@@ -526,7 +526,25 @@ pub fn strategy(ctx: &Ctx, maxlen: usize) -> BoxedStrategy<Case> {
             Just(Extra::WritePng),
             Just(Extra::ByteViews),
         ];
-        (Just((w, h)), wild_tree(w, h, maxlen), prop::collection::vec(extra, 0..=2))
+        // huge user units: numbers of 1e8..4e9 under a transform of scale 1e-7..1e-6 that brings them back onto
+        // the surface (the stated bound is on device-space geometry): integer conversions of user-space arguments
+        // overflow there
+        let huge = (prop::sample::select(vec![1.0e-7f32, 2.5e-7, 9.536743e-7, 1.0e-6]), prop::collection::vec((0u8..5, -300.0f32..300.0, -300.0f32..300.0, -300.0f32..300.0, -300.0f32..300.0, wild_src(ext), wild_opts(), image_spec(4, 4)), 1..=3)).prop_map(|(sc, items)| {
+            let mut nodes = vec![Node::Op(Op::SetXf([sc, 0.0, 0.0, sc, 0.0, 0.0]))];
+            for (kind, x, y, a, b, s, o, img) in items {
+                let u = |v: f32| v / sc;
+                nodes.push(Node::Op(match kind {
+                    0 => Op::FillRect(u(x), u(y), u(a), u(b), s, o),
+                    1 => Op::Fill(PathSpec { ops: vec![POp::M(u(x), u(y)), POp::L(u(x + a), u(y)), POp::L(u(x), u(y + b)), POp::Z], evenodd: false }, s, o),
+                    2 => Op::Stroke(PathSpec { ops: vec![POp::M(u(x), u(y)), POp::L(u(x + a), u(y + b))], evenodd: false }, s, StyleSpec { width: Fl(u(3.0)), cap: 1, join: 1, miter: Fl(4.0), dash: vec![], offset: Fl(0.0) }, o),
+                    3 => Op::DrawImageAt(u(x), u(y), img, o),
+                    _ => Op::DrawImageSized(u(a.abs() + 1.0), u(b.abs() + 1.0), u(x), u(y), img, o),
+                }));
+            }
+            nodes
+        });
+        let nodes = prop_oneof![14 => wild_tree(w, h, maxlen), 1 => huge.boxed()];
+        (Just((w, h)), nodes, prop::collection::vec(extra, 0..=2))
     })
     .prop_map(move |((w, h), mut nodes, extras)| {
         let mut xf = IDENT;
